@@ -806,12 +806,15 @@ class C15(Check):
             return [(f"building a type raised {io['build']}: {io.get('msg', '')[:120]}", fid)]
         out = []
         clash = mo.get("clash", [])
+        # a listed finding is a statement about the code the model mirrors: where the implementation no longer
+        # behaves as the model records (DESIGN.md section 8), a violation is a different one and is reported
+        agrees = self.compare(case, io, mo) is None
         k = 0
         for i, (o, inp) in enumerate(zip(io.get("outs", []), inputs_of(case))):
             clashing = i < len(clash) and clash[i]
             if "unpublishable" in o:
                 out.append((f"input {json.dumps(inp)[:80]} returned a value with no JSON form: {o['repr']}",
-                            "member-name-clash" if clashing else None))
+                            "member-name-clash" if clashing and agrees else None))
             if "ok" in o:
                 if js["valid"][k] is not True:
                     m = mo["outs"][k]
@@ -824,7 +827,8 @@ class C15(Check):
                     elif m["conforms"] is False:
                         # contract departures: only when the returned value breaks the contract of the built type
                         fid = next((f for f in FINDINGS_ORDER if f in mo.get("defects", [])), None)
-                    out.append((f"input {json.dumps(inp)[:120]} returned {json.dumps(o['ok'])[:160]}, which the schema forbids", fid))
+                    out.append((f"input {json.dumps(inp)[:120]} returned {json.dumps(o['ok'])[:160]}, which the schema forbids",
+                                fid if agrees else None))
                 k += 1
         return out
 
